@@ -268,10 +268,34 @@ pub fn run(ctx: &Ctx) -> (Report, Meta) {
             return;
         }
         let mut rng = Rng::derive(ctx.seed, 111111, i as u64);
-        let (prob, mut scn) = gen_case(&mut rng, &g);
+        let (mut prob, mut scn) = gen_case(&mut rng, &g);
         let m = mname(scn.method);
+        // a fifth of the cases: the interval straddles t = 0 and is covered in a few long steps, so that the final
+        // step x + (xend - x) is computed with cancellation and may land an ulp beside xend; the budget is then set to
+        // exactly the number of steps the run needs
+        let straddle = rng.chance(0.2) && (scn.xend - scn.x0).abs() <= 50.0 && scn.t_eval.is_none();
+        if straddle {
+            let span = (scn.xend - scn.x0).abs();
+            let d = scn.dir();
+            scn.x0 = -d * rng.range(0.02, 0.6) * span;
+            scn.xend = scn.x0 + d * span;
+            scn.max_step = None;
+            scn.first_step = None;
+            if rng.bool() {
+                // trivial dynamics: every method, BDF included, covers the interval in a handful of long steps
+                let n = 1 + rng.below(3);
+                prob = crate::problems::Simple::Zero { n };
+                scn.y0 = (0..n).map(|_| rng.range(-2.0, 2.0)).collect();
+                scn.events.clear();
+                // tolerances of the right dimension
+                scn.rtol = Tol::S(rng.logu(1e-8, 1e-3));
+                scn.atol = Tol::S(rng.logu(1e-10, 1e-4));
+            }
+        }
         if scn.method == Method::RK4 {
             scn.first_step = Some(scn.dir() * (scn.xend - scn.x0).abs() / rng.range(8.0, 120.0));
+        } else if straddle {
+            scn.first_step = Some(scn.dir() * (scn.xend - scn.x0).abs() * rng.range(0.15, 0.6));
         } else if rng.chance(0.2) {
             // a far too large first step provokes rejections before the second accepted step
             scn.first_step = Some(scn.dir() * (scn.xend - scn.x0).abs() * rng.range(0.3, 1.0));
@@ -293,6 +317,9 @@ pub fn run(ctx: &Ctx) -> (Report, Meta) {
             }
         };
         let nn = u.nstep.max(1);
+        if u.t.last().map(|&t| t != scn.xend).unwrap_or(false) {
+            rep.count(&format!("budget_twin_lands_an_ulp_beside_xend_{}", m), 1);
+        }
         let k = match i % 8 {
             0 => 1,
             1 => 2,
@@ -303,6 +330,7 @@ pub fn run(ctx: &Ctx) -> (Report, Meta) {
             6 => nn,
             _ => nn + 5,
         };
+        let k = if straddle && (i % 2 == 0 || scn.method == Method::BDF) { nn } else { k };
         let mut sb = scn.clone();
         sb.max_steps = Some(k);
         let rb = run_solve(&prob, &sb, false, false);
